@@ -15,7 +15,7 @@ core does not (yet) offer:
 import re
 
 from ..core import (AnalysisBroken, canon, strip, strip_load, walk, norm_cond, forward, last_member,
-                    lvalue_steps, names_of, field_chain)
+                    lvalue_steps, lvalue_root, names_of, field_chain)
 from ..analyses import _mem_keys, atoms_imply, aval, refine, relevant_vars, _envkey, callback_kind
 from .. import roles
 
@@ -270,8 +270,10 @@ def _cond_atoms(c, pol):
     return out
 
 
-def holding2(fn, user_call_kills=True):
-    """Branch atoms (op, lhs spelling, rhs spelling, kill keys) that hold at every program point.  Beyond
+def holding2(fn, user_call_kills=True, frozen=None):
+    """`frozen(record, field)`: no code outside the analysed function can write that field of an object living in this
+    frame (see View._frozen): an atom about `L.f` then survives a call that is handed `&L`.
+    Branch atoms (op, lhs spelling, rhs spelling, kill keys) that hold at every program point.  Beyond
     analyses.holding: an atom spelled with a caching local depends on that local only; stepping a plain local moves
     its atoms along instead of dropping them (`i = n; while (i-- > 0)` keeps `i < n`); a copy `x = y` / `x = y - c`
     relates x to y; the join weakens instead of dropping (`i == n` on entry and `i < n` on the back edge: `i <= n`)."""
@@ -378,14 +380,25 @@ def holding2(fn, user_call_kills=True):
                 # user code runs (a poll-method slot is library code: like a direct call)
                 return frozenset(a for a in S if all(k[0] == 'var' for k in a[3]))
             ks = set()
+            objs = set()
             for a in e.get('args', []):
                 a = strip(a)
                 if isinstance(a, dict) and a.get('k') == 'addr':
                     v = strip(a['e'])
                     if isinstance(v, dict) and v.get('k') == 'var':
                         ks.add(('var', v['name']))
+                        if v.get('vk') == 'local' and v.get('record') and not v.get('ptr'):
+                            objs.add(('var', v['name']))
+
+            def survives(a):
+                # the atom reads only fields of frame objects handed to the callee, and none of those fields can be
+                # written by anybody but this function
+                if frozen is None or not ((a[3] & ks) <= objs):
+                    return False
+                flds = [k for k in a[3] if k[0] != 'var']
+                return bool(flds) and all(k[0] != 'mem' and frozen(k[0], k[1]) for k in flds)
             if ks:
-                return frozenset(a for a in S if not (a[3] & ks))
+                return frozenset(a for a in S if not (a[3] & ks) or survives(a))
         return S
 
     def edge(blk, si, S):
@@ -532,6 +545,160 @@ def _field_range(prog, record, field):
     return (min(lo, 0), max(hi, 0))         # zero-initialised storage (calloc, static objects) reads 0 before any store
 
 
+def field_storers(prog, record, field):
+    """{function q: every store it makes to record.field addresses a local object of its own frame (`L.f = v`)} over all
+    functions that store the field, take its address, or assign whole objects of the record; None when the stores are
+    not all in sight (see field_range)"""
+    cache = prog.__dict__.setdefault('_h18_field_storers', {})
+    key = (record, field)
+    if key in cache:
+        return cache[key]
+    cache[key] = None
+    rec = prog.records.get(record, {}) if record else {}
+    if not rec or not str(rec.get('loc', '')).split(':')[0].endswith('.c') or not [f for f in rec.get('fields', []) if f['name'] == field]:
+        return None                                   # a record declared in a header may be written by code not in sight
+    out = {}
+    whole = 'struct ' + str(record)
+    for f in prog.all_funcs():
+        for e in f.events():
+            if e['ev'] == 'store':
+                if _is_field(e['lhs'], record, field):
+                    root = lvalue_root(e['lhs'])
+                    loc_ = root is not None and root.get('vk') == 'local' and not root.get('ptr')
+                    out[f.q] = out.get(f.q, True) and loc_
+                else:
+                    l = strip(e['lhs'])
+                    if isinstance(l, dict) and str(l.get('type', '')).replace('const ', '').strip() == whole:
+                        out[f.q] = False
+            for y in walk(e):
+                if y.get('k') == 'addr' and isinstance(y.get('e'), dict) and _is_field(y['e'], record, field):
+                    out[f.q] = False
+    cache[key] = out
+    return out
+
+
+def handed_field_range(prog, V, x):
+    """Range of the field read `P->f` when P is the pointer parameter of a function g that is only ever named as the
+    function argument of calls which are also handed `&L`, L an object of the record in the caller's frame whose field f
+    nobody but that caller writes (field_storers) and which the caller does not write after the call: the callee (or what
+    it spawns) runs g on that object, so g reads what the object held at the hand-over -- the hull over all such call
+    sites of the range of `L.f` there.  None when the protocol is not of that form."""
+    if prog is None or not (isinstance(x, dict) and x.get('k') == 'member' and x.get('arrow')):
+        return None
+    rec, fld = x.get('record'), x.get('field')
+    g = V.g
+    b = V.resolve(x['base'])
+    if not (isinstance(b, dict) and b.get('k') == 'var' and b.get('vk') == 'param' and b['name'] in V.root_params):
+        return None
+    if any(d for d in V.defs.get(b['name'], [])):
+        return None                                   # the parameter is re-pointed
+    key = ('handed', getattr(g, 'q', None), b['name'], rec, fld)
+    cache = prog.__dict__.setdefault('_h18_handed', {})
+    if key in cache:
+        return cache[key]
+    cache[key] = None
+    st = field_storers(prog, rec, fld)
+    if st is None or not all(st.values()):
+        return None
+    pidx = [i for i, p_ in enumerate(g.params) if p_.get('name') == b['name']]
+    lo, hi, n = INF, -INF, 0
+
+    def in_init(i):
+        if isinstance(i, list):
+            return any(in_init(y) for y in i)
+        if isinstance(i, dict):
+            if i.get('k') == 'var' and i.get('name') == g.name:
+                return True
+            return any(in_init(v) for v in i.values() if isinstance(v, (dict, list)))
+        return False
+    if any(isinstance(gl, dict) and gl.get('init') is not None and in_init(gl['init']) for gl in prog.globals.values()):
+        return None                                   # installed in a file-scope table
+    for h in prog.all_funcs():
+        if g.static and prog.unit_of(h) != prog.unit_of(g):
+            continue
+        Vh = None
+        for e in h.events():
+            if e['ev'] != 'call':
+                # the function named as a value outside the argument list of a call (stored, returned): runs at times
+                # nobody sees here.  (A call nested in the expression has a call event of its own.)
+                if any(_names_fn_outside_calls(v_, g.name) for k_, v_ in e.items() if k_ in ('rhs', 'value', 'lhs', 'init')):
+                    return None
+                continue
+            named = [y for y in walk(e) if y.get('k') == 'var' and y.get('vk') == 'func' and y.get('name') == g.name]
+            if not named:
+                continue
+            if e['ev'] == 'call' and e.get('callee') == g.name and not any(
+                    y.get('name') == g.name for a in e.get('args', []) for y in walk(a) if y.get('k') == 'var' and y.get('vk') == 'func'):
+                # a direct call: the object is the argument itself
+                objs = [strip(e['args'][i]) for i in pidx if i < len(e.get('args', []))]
+            elif e['ev'] == 'call' and 'callee' in e:
+                objs = [strip(a) for a in e.get('args', [])]
+                objs = [a for a in objs if isinstance(a, dict) and a.get('k') == 'addr' and isinstance(strip(a['e']), dict)
+                        and strip(a['e']).get('k') == 'var' and strip(a['e']).get('record') == rec and not strip(a['e']).get('ptr')]
+            else:
+                return None                           # installed as a handler / stored: runs at times nobody sees here
+            if len(objs) != 1 or not (objs[0].get('k') == 'addr' and strip(objs[0]['e']).get('vk') == 'local'):
+                return None
+            L = strip(objs[0]['e'])
+            if set(st) - {h.q}:
+                return None                           # somebody else writes the field
+            # the caller does not write the field once the object is handed over
+
+            def tr(ev, s_, site=e):
+                if ev is site:
+                    return True
+                if s_ and ev['ev'] == 'store' and _is_field(ev['lhs'], rec, fld):
+                    raise _Late()
+                return s_
+            try:
+                forward(h, False, tr, lambda a_, b_: a_ or b_)
+            except _Late:
+                return None
+            Vh = Vh or view_of(prog, h)
+            node = {'k': 'member', 'arrow': False, 'base': L, 'field': fld, 'record': rec, 'type': x.get('type')}
+            r = Vh.range(node, (e['_b'], e['_i']), frozenset({'#handed'}))
+            lo, hi, n = min(lo, r[0]), max(hi, r[1]), n + 1
+    if n:
+        cache[key] = (lo, hi)
+    return cache[key]
+
+
+class _Late(Exception):
+    pass
+
+
+def _names_fn_outside_calls(x, name):
+    if isinstance(x, list):
+        return any(_names_fn_outside_calls(y, name) for y in x)
+    if not isinstance(x, dict):
+        return False
+    if x.get('k') == 'var':
+        return x.get('vk') == 'func' and x.get('name') == name
+    if x.get('k') == 'call':
+        return _names_fn_outside_calls(x.get('fnexpr'), name) if 'fnexpr' in x else False
+    return any(_names_fn_outside_calls(v, name) for k, v in x.items() if isinstance(v, (dict, list)) and k != 'sizeof')
+
+
+def return_range(prog, unit, callee, seen):
+    """hull of the values the library function `callee` returns (each `return v` ranged in the function taken alone);
+    None for functions without a body in sight"""
+    t = prog.resolve(unit, callee) if callee else None
+    if t is None or not t.blocks:
+        return None
+    tag = '#ret:' + t.q
+    if tag in seen:
+        return None
+    Vt = view_of(prog, t)
+    lo, hi, n = INF, -INF, 0
+    for e in t.events():
+        if e['ev'] == 'ret':
+            if 'value' not in e:
+                return None
+            r = Vt.range(e['value'], (e['_b'], e['_i']), frozenset(x_ for x_ in seen if str(x_).startswith('#')) | {tag})
+            lo, hi, n = min(lo, r[0]), max(hi, r[1]), n + 1
+    return (lo, hi) if n else None
+
+
 def _out_param_range(prog, t, pname):
     """hull of the values function t stores through its pointer parameter pname; None when the parameter is used
     in any other way (re-assigned, passed on, compared is fine, read through is fine)"""
@@ -584,7 +751,8 @@ class View:
     def __init__(self, g, prog=None):
         self.g = g
         self.prog = prog
-        self.hd = holding2(g)
+        self._origins = {getattr(g, 'q', None)} | {e['fn'] for e in g.events() if e.get('fn')}
+        self.hd = holding2(g, frozen=self._frozen if prog is not None else None)
         self.defs = {}
         self.escaped = set()
         self.decl = {}
@@ -617,6 +785,14 @@ class View:
                     self.expr_of.setdefault(rc, r)
         self._after_dec = {}
         self._reach = None
+
+    def _frozen(self, record, field):
+        """record.field of an object that lives in this frame can be written by the viewed function only: the record is
+        private to one .c file, every store to the field in the whole program is in sight (field_storers), made by the
+        function(s) in view and addressed through a local object (so a re-entered activation writes its own frame),
+        and the field's address never leaves"""
+        st = field_storers(self.prog, record, field)
+        return st is not None and all(ok and q in self._origins for q, ok in st.items())
 
     # -- atoms -----------------------------------------------------------------
     def atoms(self, point):
@@ -668,7 +844,15 @@ class View:
                 if e.get('op') == '=':
                     return (S - byname[n]) | {i}
                 return S | {i}
-            _, ev_in = forward(self.g, frozenset(), tr, lambda a, b: a | b)
+            def edge(blk, si, S):
+                # an edge whose condition is a constant of the wrong truth value (a parameter replaced by the caller's
+                # constant) is never taken: definitions do not flow over it
+                c = blk.term.get('cond') if blk.term else None
+                if c is not None and len(blk.succ) == 2 and blk.term.get('cls') not in ('SwitchStmt', 'MethodDispatch'):
+                    if any(a[0] == 'const' and a[1] == 'False' for a in norm_cond(c, si == 0)):
+                        return None
+                return S
+            _, ev_in = forward(self.g, frozenset(), tr, lambda a, b: a | b, edge=edge)
             self._reach = (alld, ev_in)
         alld, ev_in = self._reach
         S = ev_in.get(point)
@@ -864,10 +1048,19 @@ class View:
                 if ints and len(ints) == len(vals):
                     return (min(ints), max(ints))
         if k == 'member' and self.prog is not None:
-            fr = field_range(self.prog, x.get('record'), x['field'])
+            fr = None
+            if not seen_has(seen, '#handed') and not seen_has(seen, '#fr'):
+                fr = handed_field_range(self.prog, self, x)
+            if fr is None:
+                fr = field_range(self.prog, x.get('record'), x['field'])
             if fr is not None:
                 tr = type_range(x.get('type'))
                 return (max(fr[0], tr[0]), min(fr[1], tr[1]))
+        if k == 'call' and self.prog is not None and x.get('callee'):
+            rr = return_range(self.prog, self.prog.unit_of(self.g), x['callee'], seen)
+            if rr is not None:
+                tr = type_range(x.get('type'))
+                return (max(rr[0], tr[0]), min(rr[1], tr[1]))
         return type_range(x.get('type'))
 
     # -- constant tables ---------------------------------------------------------
@@ -1610,6 +1803,60 @@ def must_written_paths(fn, record, success_only=True):
     return (result or frozenset()), len(seen)
 
 
+def read_before_write(fn, record):
+    """generic.read_before_write with the object identified through pointer copies: a local assigned exactly once from
+    another pointer variable (`fd = (struct iv_fd_ *)_fd`, an inlined helper's parameter that was handed such an
+    expression) designates the same object as that variable, so a write through one spelling covers a read through the
+    other.  Edges whose condition is a constant of the wrong truth value in this calling context are not followed."""
+    from ..generic import field_accesses, _covers
+    defs = {}
+    for e in fn.events():
+        if e['ev'] == 'store' and strip(e['lhs']).get('k') == 'var':
+            defs.setdefault(strip(e['lhs'])['name'], []).append(e)
+    parent = {}
+    for n, ds in defs.items():
+        if len(ds) == 1 and ds[0].get('op') == '=' and 'rhs' in ds[0]:
+            r = ds[0]['rhs']
+            while isinstance(r, dict) and r.get('k') in ('load', 'cast', 'paren') and isinstance(r.get('e'), dict):
+                r = r['e']
+            if isinstance(r, dict) and r.get('k') == 'var' and r.get('vk') in ('local', 'param') and r['name'] != n:
+                parent[n] = r['name']
+
+    def root(v):
+        k = 0
+        while v in parent and k < 12:
+            v, k = parent[v], k + 1
+        return v
+
+    def tr(e, S):
+        for (k, v, f) in field_accesses(e, record):
+            if k == 'w':
+                S = S | {(root(v), f)}
+        if e['ev'] == 'store':
+            l = strip(e['lhs'])
+            if l.get('k') == 'var' and l['name'] not in parent:
+                S = frozenset(x for x in S if x[0] != l['name'])
+        return S
+
+    def edge(blk, si, S):
+        c = blk.term.get('cond') if blk.term else None
+        if c is not None and len(blk.succ) == 2 and blk.term.get('cls') not in ('SwitchStmt', 'MethodDispatch'):
+            if any(a[0] == 'const' and a[1] == 'False' for a in norm_cond(c, si == 0)):
+                return None
+        return S
+    _, ev_in = forward(fn, frozenset(), tr, lambda a, b: a & b, edge=edge)
+    out = {}
+    for b, blk in fn.blocks.items():
+        for i, e in enumerate(blk.events):
+            S = ev_in.get((b, i))
+            if S is None:
+                continue
+            for (k, v, f) in field_accesses(e, record):
+                if k == 'r' and not _covers(S, root(v), f):
+                    out.setdefault(f, []).append(e)
+    return out
+
+
 def init_complete(ctx, rid, kinds=None):
     """generic.init_complete with must_written_paths in place of generic.must_written (same instances, same texts)."""
     from .. import generic as G
@@ -1647,7 +1894,7 @@ def init_complete(ctx, rid, kinds=None):
                 if nret == 0:
                     raise AnalysisBroken('%s has no success return' % r)
                 mw_reg = w if mw_reg is None else (mw_reg & w)
-                for fld, evs in G.read_before_write(g, rec).items():
+                for fld, evs in read_before_write(g, rec).items():
                     rbw_reg.setdefault(fld, []).extend((r, e) for e in evs)
             rbw = {}
             skip = set(regs) | ({K['init']} if K['init'] else set())
@@ -1855,6 +2102,45 @@ def table_callees(V, e):
             return None
         out.append(v0['name'])
     return out
+
+
+def fn_value_sources(V, x, point, depth=0):
+    """where the (function pointer) value x can have been read from at `point`: a set of (record, field) pairs, with None
+    for anything that is not a field read.  Plain locals are followed through the definitions that reach the point; a
+    selection `c ? a : b` whose condition is one integer in this context (a substituted parameter) yields its live
+    arm only, otherwise both arms."""
+    while isinstance(x, dict) and x.get('k') in ('load', 'stmtexpr', 'paren', 'cast') and 'e' in x:
+        x = x['e']
+    if not isinstance(x, dict) or depth > 6:
+        return {None}
+    k = x.get('k')
+    if k == 'deref':
+        return fn_value_sources(V, x['e'], point, depth + 1)
+    if k == 'cond':
+        c = V.const_int(x['c'], point)
+        if c is None:
+            lo, hi = V.range(x['c'], point) if point is not None else (-INF, INF)
+            if lo > 0 or hi < 0:
+                c = 1
+            elif lo == hi == 0:
+                c = 0
+        if c is not None:
+            return fn_value_sources(V, x['a'] if c else x['b'], point, depth + 1)
+        return fn_value_sources(V, x['a'], point, depth + 1) | fn_value_sources(V, x['b'], point, depth + 1)
+    if k == 'member':
+        lm = last_member(x)
+        return {lm if lm else None}
+    if k == 'var' and V.is_plain_local(x):
+        ds = V.defs_at(x['name'], point)
+        if not ds:
+            return {None}
+        out = set()
+        for d in ds:
+            if d.get('op') != '=' or 'rhs' not in d:
+                return {None}
+            out |= fn_value_sources(V, d['rhs'], (d['_b'], d['_i']), depth + 1)
+        return out
+    return {None}
 
 
 def disposes_param(prog, t, idx):
